@@ -92,6 +92,21 @@ def len_re(op, k):
 _FLIP = {ast.Gt: ast.Lt, ast.Lt: ast.Gt, ast.GtE: ast.LtE, ast.LtE: ast.GtE, ast.Eq: ast.Eq, ast.NotEq: ast.NotEq}
 
 
+LEN_ATOMS = {}      # (string var name, k) -> Bool const standing for "len(var) <= k" (large k only)
+BIG_LEN = 32
+
+
+def len_le_atom(var_term, k):
+    """len(var) <= k for a large constant k as an opaque atom: the automaton for CH{0,255} multiplies every
+    regular query by 256 states, while the validators and the grammar only ever use this one test, so it
+    is kept as an uninterpreted predicate of the string (same atom on both sides), with the order facts
+    between different bounds on the same string recorded in LEN_FACTS."""
+    key = (var_term.sexpr(), k)
+    if key not in LEN_ATOMS:
+        LEN_ATOMS[key] = z3.Bool('len<=%d(%s)' % (k, var_term.sexpr()))
+    return LEN_ATOMS[key]
+
+
 def int_compare(op, a, b, len_a=None, len_b=None):
     """a `op` b on Int terms; len(<regular string value>) against a constant goes to InRe.
     len_a / len_b: the string VALUE whose length a / b is (provenance), or None."""
@@ -99,6 +114,12 @@ def int_compare(op, a, b, len_a=None, len_b=None):
         return int_compare(_FLIP[type(op)](), b, a, len_b, None)
     if len_a is not None and z3.is_int_value(z3.simplify(b)) and is_regular(len_a):
         k = z3.simplify(b).as_long()
+        if k >= BIG_LEN and not isinstance(len_a, VLazySuffix) and not isinstance(op, (ast.Eq, ast.NotEq)):
+            # len <= k / len < k+1 / len > k / len >= k+1
+            if isinstance(op, ast.LtE): return len_le_atom(len_a.term, k)
+            if isinstance(op, ast.Lt): return len_le_atom(len_a.term, k - 1)
+            if isinstance(op, ast.Gt): return z3.Not(len_le_atom(len_a.term, k))
+            if isinstance(op, ast.GtE): return z3.Not(len_le_atom(len_a.term, k - 1))
         if isinstance(op, ast.NotEq):
             return z3.Not(member(len_a, len_re(ast.Eq(), k)))
         r = len_re(op, k)
